@@ -13,10 +13,12 @@ import (
 	"encoding/json"
 	"fmt"
 	"os"
+	"os/exec"
 	"path/filepath"
 	"reflect"
 	"sort"
 	"strings"
+	"sync/atomic"
 
 	"github.com/BondMachineHQ/BondMachine/pkg/bondmachine"
 	"github.com/BondMachineHQ/BondMachine/pkg/procbuilder"
@@ -204,6 +206,14 @@ func check(run *evid.Run, scratch string, c caseT) {
 		run.Violation("resave-differs:"+class, w)
 		return
 	}
+	// the same JSON loaded by a fresh process (empty dynamic-opcode registry, as every tool that reads
+	// a machine file starts) must give the same machine
+	if d := freshProcessLoad(scratch, js); d != "" {
+		w["fresh_process"] = d
+		run.Violation("fresh-process-load:"+strings.SplitN(d, ":", 2)[0]+":"+class, w)
+		return
+	}
+	run.Count("fresh_process_loads", 1)
 	if !c.sim {
 		return
 	}
@@ -259,7 +269,77 @@ func check(run *evid.Run, scratch string, c caseT) {
 	}
 }
 
+var freshSeq int64
+
+// freshProcessLoad re-runs this binary as a child that loads and re-saves the JSON.
+func freshProcessLoad(scratch string, js []byte) string {
+	f := filepath.Join(scratch, fmt.Sprintf("fresh%d.json", atomic.AddInt64(&freshSeq, 1)))
+	if err := os.WriteFile(f, js, 0o644); err != nil {
+		return ""
+	}
+	defer os.Remove(f)
+	out, err := exec.Command(os.Args[0], "--fresh-load", f).Output()
+	if err != nil {
+		msg := strings.TrimSpace(string(out))
+		if len(msg) > 200 {
+			msg = msg[:200]
+		}
+		if msg == "" {
+			msg = "child-failed: " + err.Error()
+		}
+		return msg
+	}
+	if !bytes.Equal(out, js) {
+		return "resave-differs: " + string(out[:min(len(out), 300)])
+	}
+	return ""
+}
+
+func freshLoadChild(path string) {
+	defer func() {
+		if r := recover(); r != nil {
+			fmt.Printf("panic: %v", r)
+			os.Exit(3)
+		}
+	}()
+	b, err := os.ReadFile(path)
+	if err != nil {
+		fmt.Print("child-failed: ", err)
+		os.Exit(3)
+	}
+	bj := new(bondmachine.Bondmachine_json)
+	if err := json.Unmarshal(b, bj); err != nil {
+		fmt.Print("unmarshal: ", err)
+		os.Exit(3)
+	}
+	bm := bj.Dejsoner()
+	for di, d := range bm.Domains {
+		for oi, op := range d.Op {
+			if op == nil {
+				fmt.Printf("opcode-dropped: domain %d opcode %d (%s)", di, oi, bj.Domains[di].Op[oi])
+				os.Exit(3)
+			}
+		}
+	}
+	for si, so := range bm.Shared_objects {
+		if so == nil {
+			fmt.Printf("shared-object-dropped: %d", si)
+			os.Exit(3)
+		}
+	}
+	js2, err := json.Marshal(bm.Jsoner())
+	if err != nil {
+		fmt.Print("marshal: ", err)
+		os.Exit(3)
+	}
+	os.Stdout.Write(js2)
+	os.Exit(0)
+}
+
 func main() {
+	if len(os.Args) > 2 && os.Args[1] == "--fresh-load" {
+		freshLoadChild(os.Args[2])
+	}
 	tier, _ := hx.Args()
 	run := evid.New("C11", tier, "exploration")
 	run.Rule = "machines: dataflow nets from the C02/C04 generators, one machine per opcode (all static opcodes and instances of every dynamic family), every shared-object kind attached to 1..2 processors, Threaded 0..3, WordSize override, ROM data, random architectures, and the same machines with every zero-valued exported scalar field set non-zero by reflection; non-trivial = a machine that was saved and loaded; distinct by name+JSON size"
